@@ -83,6 +83,21 @@ class MetaString(type):
         else:
             raise ValueError(f"{value} not a string")
 
+    def _update_buffer(cls, buffer, offset, value):
+        """Overwrite the string stored at offset. The space fixed at creation
+        cannot change: the stored size is kept and must be sufficient."""
+        if isinstance(value, String):
+            value = value.to_str()
+        info = cls._inspect_args(value)
+        size = Int64._from_buffer(buffer, offset)
+        if info.size > size:
+            raise ValueError(
+                f"`{value}` is too large to fit in the {size - 8} bytes "
+                "reserved at creation"
+            )
+        info.size = size
+        cls._to_buffer(buffer, offset, value, info)
+
     def _get_data(cls, buffer, offset):
         ll = Int64._from_buffer(buffer, offset)
         return buffer.to_bytearray(offset + 8, ll - 8)
